@@ -423,6 +423,66 @@ def correspondence(ctx):
         elif not all(rec['conforms']):
             ctx.violation('value-type-nonconforming', {'value': vsrc, 'observed': rec,
                                                        'why': 'type %s of value %s does not conform to the normalised Python type' % (rec['type'], vsrc)})
+    # (e) value typing: the Coq model of get_pedal_type_from_value / is_subtype / the normal form vs the implementation
+    TY = {'AnyType': 'TAny', 'NumType': 'TNum', 'IntType': 'TInt', 'FloatType': 'TFloat', 'BoolType': 'TBool', 'StrType': 'TStr', 'NoneType': 'TNone',
+          'LiteralInt': 'TLitInt', 'LiteralFloat': 'TLitFloat', 'LiteralBool': 'TLitBool', 'LiteralStr': 'TLitStr'}
+
+    class Outside(Exception):
+        pass
+
+    def coq_ty(e):
+        n = e[0]
+        if n in TY:
+            return TY[n]
+        if n == 'ListType':
+            return '(TList %s)' % coq_ty(e[1])
+        if n == 'SetType':
+            return '(TSet %s)' % coq_ty(e[1])
+        if n == 'TupleType':
+            return '(TTuple %s)' % clist([coq_ty(x) for x in e[1]])
+        if n == 'DictType':
+            return '(TDict %s)' % clist(['(%s, %s)' % (coq_ty(k), coq_ty(x)) for k, x in e[1]])
+        raise Outside(n)
+
+    def coq_pval(e):
+        n = e[0]
+        if n in ('int', 'float', 'bool', 'str', 'none'):
+            return {'int': 'PInt', 'float': 'PFloat', 'bool': 'PBool', 'str': 'PStr', 'none': 'PNone'}[n]
+        if n in ('list', 'tuple', 'set'):
+            return '(%s %s)' % ({'list': 'PList', 'tuple': 'PTuple', 'set': 'PSet'}[n], clist([coq_pval(x) for x in e[1]]))
+        if n == 'dict':
+            return '(PDict %s)' % clist(['(%s, %s)' % (coq_pval(k), coq_pval(x)) for k, x in e[1]])
+        raise Outside(n)
+    vitems, vidx = [], []
+    encs = []
+    for vsrc, rec in zip(values, res['values']):
+        encs.append(None)
+        if 'raised' in rec or 'value_enc' not in rec:
+            continue
+        try:
+            encs[-1] = coq_pval(rec['value_enc'])
+            vitems.append('(%s, %s, %s)' % (encs[-1], coq_ty(rec['type_enc']), coq_ty(rec['norm_enc'])))
+            vidx.append(vsrc)
+        except Outside:
+            encs[-1] = None
+            ctx.count('value-typing:outside-the-model-universe')
+    VHEADER = ('From Coq Require Import List Bool.\nImport ListNotations.\nFrom Pedal Require Import model.C19_Values model.C19_Values_Run.\n')
+    bad = ctx.coq_cases('valuetypes', VHEADER, vitems, 'check_value_type', chunk=200)
+    ctx.obligation('correspondence:value-typing(model type_of / norm_of = get_pedal_type_from_value / normalize_type(type(v)).as_type() on %d nested values)'
+                   % len(vitems), not bad, str([vidx[i] for k, i, d in bad if k == 'mismatch'][:5]))
+    for b in bad[:3]:
+        ctx.broken.append(('correspondence', 'C19:value-typing', vidx[b[1]] if b[0] == 'mismatch' else b[2]))
+    pitems, pidx = [], []
+    for i, j, ob in res.get('subtype_pairs', []):
+        if encs[i] is None or encs[j] is None or ob == 'raise':
+            continue
+        pitems.append('(%s, %s, %s)' % (encs[i], encs[j], vlib.cbool(ob)))
+        pidx.append((values[i], values[j]))
+    bad = ctx.coq_cases('subtypes', VHEADER, pitems, 'check_subtype_pair', chunk=400)
+    ctx.obligation('correspondence:is_subtype(model sub = real is_subtype between the types of %d ordered value pairs)' % len(pitems), not bad,
+                   str([pidx[i] for k, i, d in bad if k == 'mismatch'][:5]))
+    for b in bad[:3]:
+        ctx.broken.append(('correspondence', 'C19:is_subtype', str(pidx[b[1]]) if b[0] == 'mismatch' else b[2]))
     ctx.rule = ('exhaustive: 12 binary operators + 8 comparisons x 5 x 5 core operand types, each evaluated on several values (zero, '
                 'negative, empty) in live CPython and through real tifa_analysis on a two-variable program; random expression trees of '
                 'depth 2-3 over typed variables; nested JSON-like values (ints, floats, bools, strs, None, lists, tuples, dicts, sets) '
